@@ -2,8 +2,8 @@
 from harness import check, replay
 
 LENSES = {
-    "quick": ["binder_names"],
-    "thorough": ["binder_names"],
+    "quick": ["binder_names", "binder_integ"],
+    "thorough": ["binder_names", "binder_integ"],
 }
 
 
@@ -11,7 +11,7 @@ def run(tier):
     out = check.Outcome("C05", tier)
     rp = replay.Replay("harness.modes:c05")
     for lens in LENSES[tier]:
-        rp.run_lens(lens)
+        rp.run_lens(lens, limit=15000 if (tier == "quick" and lens == "binder_integ") else None)
     out.add_replay(rp, "termmachine")
     out.coverage = check.replay_coverage(
         rp, "every nesting of binder constructors of the lens with all name coincidences over {a,b,c}, "
